@@ -291,7 +291,7 @@ PROPS['C12'] = dict(
     mc=[dict(module='Framing', name='MC_FramingDamage', cfg=FRAMING_CFG.replace('INVARIANTS SeqRoundTrip RandomRoundTrip SizeIsOccupancy PositionsValid', 'INVARIANTS DamageSafe TruncSafe'),
              consts={}, workers=12, timeout=1500, xmx='12g',
              quick=dict(MaxRecs=3, Lens=_set([1, 2, 5, 9, 10, 11, 12, 13, 14, 20, 27, 30])), thorough=dict(MaxRecs=3, Lens=_set(range(1, 36))))],
-    traces=[dict(profile='damage', spec='EngineTrace', enforce=['damage', 'res', 'bres', 'open'], sig=damage_sig, trace_event='damage',
+    traces=[dict(profile='damage', spec='EngineTrace', enforce=['damage', 'ldamage', 'res', 'bres', 'open'], sig=damage_sig, trace_event='damage',
                  quick_seeds=1, thorough_seeds=1, tlc_timeout=2400, driver_timeout=2400)],
     rule='distinct (damage kind, directory, file type, Open outcome, reader outcome, Fold outcome, set of Get outcomes) tuples over the injected damages; every injected damage is a distinct case (file, offset, bit); trivial = none',
     assumptions=['CRC-32 is treated as collision-free in the model (a damaged chunk decodes to an error); the exhaustive bit-flip sweep on the real code is what exercises the real checksum',
